@@ -1,6 +1,7 @@
 package nc
 
 import (
+	"fmt"
 	"go/token"
 	"go/types"
 
@@ -533,4 +534,1184 @@ func c07CallersPassFresh(p *Prog, fn *ssa.Function, prm *ssa.Parameter, depth in
 		}
 	}
 	return ok
+}
+
+// ---------------------------------------------------------------------------
+// Loop fission by phase: the merge walk written as one loop over both lists
+// followed by tail loops that each walk the rest of one list.
+
+// c07SplitLoops picks the merge loop (the one loop that carries a cursor of
+// each list) and the tail loops (every other loop: behind the merge loop,
+// sharing no block with it or with each other, ordered by dominance).
+// A single loop is the merge loop, as before.
+func c07SplitLoops(loops []*Loop, fam1, fam2 map[ssa.Value]bool) (*Loop, []*Loop, string) {
+	if len(loops) == 1 {
+		return loops[0], nil, ""
+	}
+	var main *Loop
+	for _, l := range loops {
+		has1, has2 := false, false
+		for _, ph := range HeaderPhis(l) {
+			if fam1[ph] && !fam2[ph] {
+				has1 = true
+			}
+			if fam2[ph] && !fam1[ph] {
+				has2 = true
+			}
+		}
+		if has1 && has2 {
+			if main != nil {
+				return nil, nil, fmt.Sprintf("expected one merge loop, found %d loops of which more than one carries both cursors", len(loops))
+			}
+			main = l
+		}
+	}
+	if main == nil {
+		return nil, nil, fmt.Sprintf("expected one merge loop, found %d", len(loops))
+	}
+	var rest []*Loop
+	for _, l := range loops {
+		if l == main {
+			continue
+		}
+		if main.Blocks[l.Header] || !main.Header.Dominates(l.Header) {
+			return nil, nil, fmt.Sprintf("expected one merge loop, found %d; a further loop is nested in the merge loop or not behind it", len(loops))
+		}
+		for b := range l.Blocks {
+			if main.Blocks[b] {
+				return nil, nil, fmt.Sprintf("expected one merge loop, found %d; a further loop shares blocks with the merge loop", len(loops))
+			}
+		}
+		rest = append(rest, l)
+	}
+	// dominance chain: the loop whose header dominates all remaining headers comes first
+	var tails []*Loop
+	for len(rest) > 0 {
+		pick := -1
+		for i, a := range rest {
+			first := true
+			for j, b := range rest {
+				if i != j && !a.Header.Dominates(b.Header) {
+					first = false
+				}
+			}
+			if first {
+				pick = i
+				break
+			}
+		}
+		if pick < 0 {
+			return nil, nil, fmt.Sprintf("expected one merge loop, found %d; the loops behind the merge loop are not executed one after the other", len(loops))
+		}
+		a := rest[pick]
+		rest = append(rest[:pick:pick], rest[pick+1:]...)
+		for _, b := range rest {
+			if a.Blocks[b.Header] {
+				return nil, nil, fmt.Sprintf("expected one merge loop, found %d; the loops behind the merge loop are nested", len(loops))
+			}
+		}
+		tails = append(tails, a)
+	}
+	return main, tails, ""
+}
+
+// c07Tails: what the tail loops behind the merge loop were proved to do.
+type c07Tails struct {
+	OK     bool          // every tail loop is sound and the last accumulated value is the one the formula uses
+	ByList map[int]*Loop // list number -> a sound tail loop that counts the rest of that list
+	Last   *ssa.Phi      // the unit accumulator of the last tail loop (the value the formula must use)
+}
+
+// c07Unavoidable: every way from `from` to a return passes through block `through`.
+func c07Unavoidable(from, through *ssa.BasicBlock) bool {
+	if from == nil || through == nil {
+		return false
+	}
+	if from == through {
+		return true
+	}
+	seen := map[*ssa.BasicBlock]bool{through: true}
+	stack := []*ssa.BasicBlock{from}
+	for len(stack) > 0 {
+		b := stack[len(stack)-1]
+		stack = stack[:len(stack)-1]
+		if seen[b] {
+			continue
+		}
+		seen[b] = true
+		if len(b.Succs) == 0 {
+			return false // a return (or panic) reached without passing `through`
+		}
+		stack = append(stack, b.Succs...)
+	}
+	return true
+}
+
+// c07SignedStep: by how much does the loop-carried integer ph change on the path (constant steps only)?
+func c07SignedStep(ip *IterPath, ph *ssa.Phi) (int, bool) {
+	next := ip.NextValue(ph)
+	if next == nil {
+		return 0, false
+	}
+	adds, subs, ok := ip.Delta(next, ph)
+	if !ok {
+		return 0, false
+	}
+	n := 0
+	for _, a := range adds {
+		k, isK := c07PathInt(ip, a)
+		if !isK {
+			return 0, false
+		}
+		n += int(k)
+	}
+	for _, s := range subs {
+		k, isK := c07PathInt(ip, s)
+		if !isK {
+			return 0, false
+		}
+		n -= int(k)
+	}
+	return n, true
+}
+
+// c07CheckTails judges the tail loops behind the merge loop, in execution order.
+// A tail loop over list k is sound when
+//   - it carries the cursor of list k and the unit accumulator (excess counter of the linear walk, cost of the
+//     backward walk) and nothing else; on entry both continue the values the walk had reached so far (the cursor
+//     and accumulator of the merge loop or of the previous tail loop - no reset, no skipped contribution);
+//   - every iteration runs under the test that the cursor is still inside its list, moves the cursor by one step
+//     in the direction of the merge walk and adds exactly one unit (1 excess gene / one DisjointCoeff);
+//   - it is left only under the test that the cursor ran off its list (so every remaining gene is counted);
+//   - it can iterate only when the OTHER list is exhausted: on every edge entering the loop the branch outcomes
+//     say that the other list's current cursor is exhausted (a value fixed during the loop), or that this loop's
+//     own cursor is (then the body is not entered at all from that edge). Only then is a gene counted here
+//     really an excess gene (linear) / a gene without partner (backward walk);
+//
+// and the accumulator of the last tail loop is the value that the distance formula multiplies by ExcessCoeff
+// (linear) or returns (backward walk).
+func (r *Run) c07CheckTails(fn *ssa.Function, tm *Termer, kind string, main *Loop, tails []*Loop, fam1, fam2 map[ssa.Value]bool,
+	c1, c2, mainAcc *ssa.Phi, mainPaths []*IterPath, roleOf func(*ssa.Phi) string, isDisjoint, isExcess func(ssa.Value) bool) *c07Tails {
+	p := r.P
+	info := &c07Tails{OK: true, ByList: map[int]*Loop{}}
+	// direction of the merge walk per cursor
+	dir := map[int]int{}
+	for _, ip := range mainPaths {
+		if ip.End != "back" {
+			continue
+		}
+		for k, c := range map[int]*ssa.Phi{1: c1, 2: c2} {
+			if n, ok := c07SignedStep(ip, c); ok && n != 0 && dir[k] == 0 {
+				dir[k] = n
+			}
+		}
+	}
+	cur := map[int]ssa.Value{1: c1, 2: c2}
+	var curAcc ssa.Value
+	if mainAcc != nil {
+		curAcc = mainAcc
+	}
+	wantRole := "excess"
+	if kind == "fast" {
+		wantRole = "cost"
+	}
+	isHeaderPhi := func(v ssa.Value) bool {
+		ph, ok := v.(*ssa.Phi)
+		if !ok {
+			return false
+		}
+		for _, l := range append([]*Loop{main}, tails...) {
+			if ph.Block() == l.Header {
+				return true
+			}
+		}
+		return false
+	}
+	for i, tl := range tails {
+		construct := fmt.Sprintf("%s.tail[%d]", fn.Name(), i+1)
+		pos := p.Pos(c07BlockPos(tl.Header, fn))
+		var cphi, acc *ssa.Phi
+		k := 0
+		fail := func(msg string) {
+			info.OK = false
+			r.Bad(construct, pos, msg)
+			// later tail loops are judged against the values this one leaves
+			cur[k] = cphi
+			curAcc = acc
+		}
+		var others []*ssa.Phi
+		nCur := 0
+		for _, ph := range HeaderPhis(tl) {
+			switch {
+			case fam1[ph] && !fam2[ph]:
+				cphi, k = ph, 1
+				nCur++
+			case fam2[ph] && !fam1[ph]:
+				cphi, k = ph, 2
+				nCur++
+			case acc == nil && roleOf(ph) == wantRole:
+				acc = ph
+			default:
+				others = append(others, ph)
+			}
+		}
+		if nCur != 1 || acc == nil {
+			info.OK = false
+			r.Undecided(construct, pos, fmt.Sprintf("a loop behind the merge loop is not a walk over the rest of one list (cursors carried: %d, unit accumulator found: %v)", nCur, acc != nil))
+			continue
+		}
+		other := 3 - k
+		listTerm := map[int]string{1: "recv.Genes", 2: "p1.Genes"}
+		// entry edges: continuation of the values reached so far, and exhaustion of one of the lists
+		msg := ""
+		nEntry := 0
+		for pi, pred := range tl.Header.Preds {
+			if tl.Blocks[pred] {
+				continue
+			}
+			nEntry++
+			if cphi.Edges[pi] != cur[k] {
+				msg = fmt.Sprintf("the tail loop over list %d does not continue from the cursor value the walk had reached (%s instead of %s)", k, tm.Of(cphi.Edges[pi]).String(), tm.Of(cur[k]).String())
+			}
+			if curAcc != nil {
+				if acc.Edges[pi] != curAcc {
+					msg = "the tail loop does not continue from the accumulated value the walk had reached: earlier contributions are dropped or replaced"
+				}
+			} else if z, isK := constInt(acc.Edges[pi]); !isK || z != 0 {
+				msg = "the unit accumulator of the tail loop starts neither from the value accumulated so far nor from 0"
+			}
+			known := false
+			for _, g := range condsAt(pred, tl.Header) {
+				if exhaustedBy(tm, g, map[ssa.Value]bool{cur[other]: true}, listTerm[other]) || exhaustedBy(tm, g, map[ssa.Value]bool{cur[k]: true}, listTerm[k]) {
+					known = true
+				}
+			}
+			if !known && msg == "" {
+				msg = fmt.Sprintf("the tail loop over list %d can be entered while neither list is known to be exhausted: the genes it counts may have a partner in the other list", k)
+			}
+		}
+		if nEntry == 0 && msg == "" {
+			msg = "the tail loop has no entry edge"
+		}
+		if msg != "" {
+			fail(msg)
+			continue
+		}
+		paths, complete := EnumIterPaths(fn, tl, 100)
+		if !complete {
+			info.OK = false
+			r.Undecided(construct, pos, "too many paths through one iteration of the tail loop")
+			continue
+		}
+		r.PathsExplored += len(paths)
+		self := map[ssa.Value]bool{cphi: true}
+		nBack, nExit := 0, 0
+		for _, ip := range paths {
+			if relInfeasible(tm, ip.Conds) {
+				continue
+			}
+			switch ip.End {
+			case "back":
+				nBack++
+				inRange := false
+				for _, g := range ip.Conds {
+					if exhaustedBy(tm, Guard{g.Cond, !g.True, g.At}, self, listTerm[k]) {
+						inRange = true
+					}
+				}
+				step, okS := c07SignedStep(ip, cphi)
+				units := 0
+				okU := true
+				adds, subs, okD := ip.Delta(ip.NextValue(acc), acc)
+				if !okD || len(subs) > 0 {
+					okU = false
+				}
+				for _, a := range adds {
+					if kind == "fast" {
+						if isDisjoint(c07OnPath(ip).Resolve(a)) {
+							units++
+						} else {
+							okU = false
+						}
+					} else {
+						if n, isK := c07PathInt(ip, a); isK && n == 1 {
+							units++
+						} else {
+							okU = false
+						}
+					}
+				}
+				for _, o := range others {
+					if ip.NextValue(o) != ssa.Value(o) {
+						okU = false
+					}
+				}
+				switch {
+				case !inRange:
+					msg = fmt.Sprintf("an iteration of the tail loop over list %d does not run under the test that its cursor is still inside the list", k)
+				case !okS || step == 0 || dir[k] == 0 || step != dir[k]:
+					msg = fmt.Sprintf("an iteration of the tail loop over list %d moves its cursor by %d (the merge walk moves it by %d)", k, step, dir[k])
+				case !okU || units != 1:
+					msg = fmt.Sprintf("an iteration of the tail loop over list %d does not add exactly one unit and nothing else (units=%d)", k, units)
+				}
+			case "exit":
+				nExit++
+				ex := false
+				for _, g := range ip.Conds {
+					if exhaustedBy(tm, g, self, listTerm[k]) {
+						ex = true
+					}
+				}
+				if !ex {
+					msg = fmt.Sprintf("the tail loop over list %d can be left before its cursor ran off the list: the remaining genes are not counted", k)
+				}
+			default:
+				msg = "the tail loop returns from the function"
+			}
+		}
+		if msg == "" && (nBack == 0 || nExit == 0) {
+			msg = "the tail loop has no feasible iteration or no exit"
+		}
+		if msg != "" {
+			fail(msg)
+			continue
+		}
+		unit := "one excess gene"
+		if kind == "fast" {
+			unit = "one DisjointCoeff"
+		}
+		r.OK(construct, pos, fmt.Sprintf("tail loop over list %d: runs only when the other list is exhausted, counts %s per remaining gene, ends with the list exhausted", k, unit))
+		info.ByList[k] = tl
+		cur[k] = cphi
+		curAcc = acc
+	}
+	info.Last, _ = curAcc.(*ssa.Phi)
+	// the value the formula uses is the one the last tail loop leaves
+	if info.OK && curAcc != nil {
+		used := false
+		seen := map[ssa.Value]bool{}
+		var visit func(v ssa.Value, depth int)
+		visit = func(v ssa.Value, depth int) {
+			if seen[v] || depth > 8 || v.Referrers() == nil {
+				return
+			}
+			seen[v] = true
+			for _, ref := range *v.Referrers() {
+				switch y := ref.(type) {
+				case *ssa.Phi:
+					if !isHeaderPhi(y) {
+						visit(y, depth+1)
+					}
+				case *ssa.Convert:
+					visit(y, depth+1)
+				case *ssa.Return:
+					if kind == "fast" {
+						used = true
+					}
+				case *ssa.BinOp:
+					o := y.X
+					if o == v {
+						o = y.Y
+					}
+					switch {
+					case kind == "linear" && y.Op == token.MUL && isExcess(o):
+						used = true
+					case kind == "fast" && y.Op == token.ADD:
+						visit(y, depth+1)
+					}
+				}
+			}
+		}
+		visit(curAcc, 0)
+		construct := fn.Name() + ".tail.result"
+		if !r.Check(used, construct, p.Pos(fn.Pos()), "the value accumulated by the last tail loop is the one the distance formula uses",
+			"the value accumulated by the last tail loop is not the one the distance formula uses: the genes counted behind the merge loop do not reach the result") {
+			info.OK = false
+		}
+	}
+	return info
+}
+
+func c07BlockPos(b *ssa.BasicBlock, fn *ssa.Function) token.Pos {
+	for _, in := range b.Instrs {
+		if in.Pos().IsValid() {
+			return in.Pos()
+		}
+	}
+	for _, s := range b.Succs {
+		for _, in := range s.Instrs {
+			if in.Pos().IsValid() {
+				return in.Pos()
+			}
+		}
+	}
+	return fn.Pos()
+}
+
+// ---------------------------------------------------------------------------
+// Forward walk: the remainder of the list that is not exhausted added in one
+// piece behind the loop (`numExcess += float64(size2 - i2)`), possibly behind
+// a test (`if i2 < size2 {...}`) or for both lists at once.
+
+// c07ForwardInvariant: cursor c of the forward walk never runs past the end of
+// its list: it starts at 0 and every iteration that moves it moves it by +1
+// under the test that it is still inside the list. With it, `exhausted` means
+// c == len(list), so len(list)-c is the exact number of remaining genes (0 when exhausted).
+func c07ForwardInvariant(tm *Termer, l *Loop, paths []*IterPath, c *ssa.Phi, listTerm string) bool {
+	for i, pred := range l.Header.Preds {
+		if l.Blocks[pred] {
+			continue
+		}
+		if z, isK := constInt(c.Edges[i]); !isK || z != 0 {
+			return false
+		}
+	}
+	self := map[ssa.Value]bool{c: true}
+	for _, ip := range paths {
+		if ip.End != "back" || relInfeasible(tm, ip.Conds) {
+			continue
+		}
+		n, ok := c07SignedStep(ip, c)
+		if !ok {
+			return false
+		}
+		if n == 0 {
+			continue
+		}
+		if n != 1 {
+			return false
+		}
+		inRange := false
+		for _, g := range ip.Conds {
+			if exhaustedBy(tm, Guard{g.Cond, !g.True, g.At}, self, listTerm) {
+				inRange = true
+			}
+		}
+		if !inRange {
+			return false
+		}
+	}
+	return true
+}
+
+// c07SumLeaves flattens v, as computed on the path, into the operands of a sum.
+func c07SumLeaves(fp *IterPath, v ssa.Value, depth int) ([]ssa.Value, bool) {
+	if depth > 30 {
+		return nil, false
+	}
+	v = fp.ResolveAt(v)
+	if b, ok := v.(*ssa.BinOp); ok && b.Op == token.ADD {
+		x, okx := c07SumLeaves(fp, b.X, depth+1)
+		y, oky := c07SumLeaves(fp, b.Y, depth+1)
+		return append(x, y...), okx && oky
+	}
+	return []ssa.Value{v}, true
+}
+
+// c07ForwardRemainderOnAllPaths decides the exit obligation of the forward walk
+// for one way out of the merge loop when the remaining genes are counted in one
+// piece: on every feasible continuation from the exit to the function result,
+// at least one list is exhausted, and the value the formula multiplies by
+// ExcessCoeff is the excess counter of the loop (0 when the loop does not carry
+// one) plus, for each list that is not known to be exhausted, exactly one term
+// len(list)-cursor (its remaining genes). A term over a list that IS exhausted
+// is accepted when the cursor provably never runs past the end (the term is 0).
+func c07ForwardRemainderOnAllPaths(fn *ssa.Function, tm *Termer, ip *IterPath, eCnt, c1, c2 *ssa.Phi, inv map[int]bool, isExcess func(ssa.Value) bool) (bool, string) {
+	fulls, ok := c07FullPaths(fn, ip)
+	if !ok {
+		return false, ""
+	}
+	// the one product ExcessCoeff * E of the formula
+	var final ssa.Value
+	var finalAt *ssa.BasicBlock
+	nMul := 0
+	Instrs(fn, func(b *ssa.BasicBlock, _ int, in ssa.Instruction) {
+		m, ok := in.(*ssa.BinOp)
+		if !ok || m.Op != token.MUL {
+			return
+		}
+		switch {
+		case isExcess(m.X):
+			final, finalAt = m.Y, b
+			nMul++
+		case isExcess(m.Y):
+			final, finalAt = m.X, b
+			nMul++
+		}
+	})
+	if nMul != 1 {
+		return false, ""
+	}
+	cur := map[int]*ssa.Phi{1: c1, 2: c2}
+	lenTerm := map[int]string{1: "len(recv.Genes)", 2: "len(p1.Genes)"}
+	listTerm := map[int]string{1: "recv.Genes", 2: "p1.Genes"}
+	feasible := 0
+	for _, fp := range fulls {
+		if relInfeasible(tm, fp.Conds) {
+			continue
+		}
+		feasible++
+		onPath := false
+		for _, b := range fp.Blocks {
+			if b == finalAt {
+				onPath = true
+			}
+		}
+		if !onPath {
+			return false, " (a way from this exit to the result does not compute the excess term of the formula)"
+		}
+		ex := map[int]bool{}
+		in := map[int]bool{}
+		for k := 1; k <= 2; k++ {
+			self := map[ssa.Value]bool{cur[k]: true}
+			for _, g := range fp.Conds {
+				if exhaustedBy(tm, g, self, listTerm[k]) {
+					ex[k] = true
+				}
+				if exhaustedBy(tm, Guard{g.Cond, !g.True, g.At}, self, listTerm[k]) {
+					in[k] = true
+				}
+			}
+		}
+		if !ex[1] && !ex[2] {
+			return false, " (on a way from this exit to the result neither list is known to be exhausted)"
+		}
+		v := fp.ResolveAt(final)
+		if cv, isCv := v.(*ssa.Convert); isCv {
+			v = cv.X
+		}
+		leaves, okL := c07SumLeaves(fp, v, 0)
+		if !okL {
+			return false, ""
+		}
+		nBase := 0
+		n := map[int]int{}
+		for len(leaves) > 0 {
+			lf := leaves[0]
+			leaves = leaves[1:]
+			if eCnt != nil && lf == ssa.Value(eCnt) {
+				nBase++
+				continue
+			}
+			if z, isK := constInt(lf); isK && z == 0 {
+				continue
+			}
+			if cv, isCv := lf.(*ssa.Convert); isCv {
+				// a converted integer sum is the sum of its converted operands (gene counts: no rounding, no overflow)
+				inner, okI := c07SumLeaves(fp, cv.X, 0)
+				if !okI {
+					return false, ""
+				}
+				if len(inner) > 1 {
+					leaves = append(leaves, inner...)
+					continue
+				}
+				lf = inner[0]
+			}
+			sb, isSub := lf.(*ssa.BinOp)
+			if !isSub || sb.Op != token.SUB {
+				return false, " (behind this exit something other than the remaining genes of a list is added to the excess count)"
+			}
+			matched := false
+			for k := 1; k <= 2; k++ {
+				if tm.Of(sb.X).String() == lenTerm[k] && fp.ResolveAt(sb.Y) == ssa.Value(cur[k]) {
+					n[k]++
+					matched = true
+				}
+			}
+			if !matched {
+				return false, " (behind this exit something other than the remaining genes of a list is added to the excess count)"
+			}
+		}
+		if eCnt != nil && nBase != 1 {
+			return false, " (the excess count behind this exit does not continue the one of the loop)"
+		}
+		for k := 1; k <= 2; k++ {
+			switch {
+			case ex[k]:
+				if n[k] > 1 || (n[k] == 1 && !inv[k]) {
+					return false, fmt.Sprintf(" (list %d is exhausted on this way, yet len-cursor is added for it and the cursor is not known to stop at the end of the list)", k)
+				}
+			default:
+				if n[k] != 1 || (!inv[k] && !in[k]) {
+					return false, fmt.Sprintf(" (the remaining genes of list %d are added %d times on a way from this exit to the result)", k, n[k])
+				}
+			}
+		}
+	}
+	if feasible == 0 {
+		return false, ""
+	}
+	return true, ""
+}
+
+// ---------------------------------------------------------------------------
+// Result formula, start state, early returns.
+
+// c07Walk: the loop-carried values of one walk, as identified by the rule.
+type c07Walk struct {
+	Fn                       *ssa.Function
+	Kind                     string
+	Main                     *Loop
+	Tails                    []*Loop
+	TailAcc                  *ssa.Phi // unit accumulator of the last tail loop, nil without tail loops
+	C1, C2                   *ssa.Phi
+	D, E, M, MD, Cost, State *ssa.Phi
+	Fam1, Fam2               map[ssa.Value]bool
+	IsDc, IsEc, IsMc         func(ssa.Value) bool
+}
+
+type c07Leaf struct {
+	V  ssa.Value
+	At *ssa.BasicBlock // block of the addition that contributes the operand (nil: v itself)
+}
+
+// c07Leaves flattens v, as computed on the path, into the operands of a sum, remembering where each is added.
+func c07Leaves(fp *IterPath, v ssa.Value, at *ssa.BasicBlock, depth int) ([]c07Leaf, bool) {
+	if depth > 40 {
+		return nil, false
+	}
+	v = fp.ResolveAt(v)
+	if b, ok := v.(*ssa.BinOp); ok && b.Op == token.ADD {
+		x, okx := c07Leaves(fp, b.X, b.Block(), depth+1)
+		y, oky := c07Leaves(fp, b.Y, b.Block(), depth+1)
+		return append(x, y...), okx && oky
+	}
+	return []c07Leaf{{v, at}}, true
+}
+
+func c07StripConv(fp *IterPath, v ssa.Value) ssa.Value {
+	for i := 0; i < 6; i++ {
+		v = fp.ResolveAt(v)
+		cv, ok := v.(*ssa.Convert)
+		if !ok {
+			return v
+		}
+		v = cv.X
+	}
+	return v
+}
+
+// c07Factors flattens a product/quotient tree into numerator and denominator factors (as computed on the path).
+func c07Factors(fp *IterPath, v ssa.Value, inv bool, num, den *[]ssa.Value, depth int) {
+	v = c07StripConv(fp, v)
+	if b, ok := v.(*ssa.BinOp); ok && depth < 12 {
+		switch b.Op {
+		case token.MUL:
+			c07Factors(fp, b.X, inv, num, den, depth+1)
+			c07Factors(fp, b.Y, inv, num, den, depth+1)
+			return
+		case token.QUO:
+			c07Factors(fp, b.X, inv, num, den, depth+1)
+			c07Factors(fp, b.Y, !inv, num, den, depth+1)
+			return
+		}
+	}
+	if inv {
+		*den = append(*den, v)
+	} else {
+		*num = append(*num, v)
+	}
+}
+
+// c07FinalOf: v, as computed on the path, is the loop-carried accumulator acc plus only what the (last,
+// partial) iteration of the merge loop added to it - i.e. the value the accumulator has when the walk ends.
+func c07FinalOf(fp *IterPath, v ssa.Value, acc *ssa.Phi, main *Loop) bool {
+	if acc == nil {
+		return false
+	}
+	leaves, ok := c07Leaves(fp, c07StripConv(fp, v), nil, 0)
+	if !ok {
+		return false
+	}
+	n := 0
+	for _, lf := range leaves {
+		if lf.V == ssa.Value(acc) {
+			n++
+			continue
+		}
+		if lf.At == nil || !main.Blocks[lf.At] {
+			return false
+		}
+	}
+	return n == 1
+}
+
+// c07ResultPaths: every feasible way from the end of the walk (the exits of the merge loop, or of the last
+// tail loop) to a return.
+func c07ResultPaths(w *c07Walk, tm *Termer, paths []*IterPath) ([]*IterPath, bool) {
+	var out []*IterPath
+	if len(w.Tails) == 0 {
+		for _, ip := range paths {
+			if ip.End == "back" || relInfeasible(tm, ip.Conds) {
+				continue
+			}
+			fulls, ok := c07FullPaths(w.Fn, ip)
+			if !ok {
+				return nil, false
+			}
+			for _, fp := range fulls {
+				if !relInfeasible(tm, fp.Conds) {
+					out = append(out, fp)
+				}
+			}
+		}
+		return out, len(out) > 0
+	}
+	last := w.Tails[len(w.Tails)-1]
+	seen := map[*ssa.BasicBlock]bool{}
+	for b := range last.Blocks {
+		for _, x := range b.Succs {
+			if last.Blocks[x] || seen[x] {
+				continue
+			}
+			seen[x] = true
+			conts, complete := EnumRegionPaths(w.Fn, x, func(*ssa.BasicBlock) bool { return false }, 200)
+			if !complete {
+				return nil, false
+			}
+			for _, c := range conts {
+				if c.End != "return" {
+					return nil, false
+				}
+				if !relInfeasible(tm, c.Conds) {
+					out = append(out, &IterPath{Blocks: c.Blocks, End: "partial", Conds: c.Conds})
+				}
+			}
+		}
+	}
+	return out, len(out) > 0
+}
+
+// c07Sign: what the branch outcomes of the path say about v compared with 0 (bit set of c07Rel*).
+func c07Sign(fp *IterPath, v ssa.Value) int {
+	mask := c07RelLT | c07RelEQ | c07RelGT
+	same := func(x ssa.Value) bool {
+		x = c07StripConv(&IterPath{End: "partial"}, x)
+		return x == v || fp.ResolveAt(x) == v
+	}
+	for _, g := range fp.Conds {
+		b, ok := g.Cond.(*ssa.BinOp)
+		if !ok {
+			continue
+		}
+		set, ok := c07RelSet(b.Op, g.True)
+		if !ok {
+			continue
+		}
+		kx, zx := constInt(b.X)
+		ky, zy := constInt(b.Y)
+		switch {
+		case zy && same(b.X):
+			if ky == 1 { // v < 1, v >= 1
+				if set == c07RelLT {
+					set = c07RelLT | c07RelEQ
+				} else if set == c07RelGT|c07RelEQ {
+					set = c07RelGT
+				} else {
+					continue
+				}
+			} else if ky != 0 {
+				continue
+			}
+		case zx && same(b.Y):
+			set = c07Mirror(set)
+			if kx == 1 {
+				if set == c07RelLT {
+					set = c07RelLT | c07RelEQ
+				} else if set == c07RelGT|c07RelEQ {
+					set = c07RelGT
+				} else {
+					continue
+				}
+			} else if kx != 0 {
+				continue
+			}
+		default:
+			continue
+		}
+		mask &= set
+	}
+	return mask
+}
+
+// c07CheckResult: on every way from the end of the walk to a return, the value returned is
+//
+//	linear:   DisjointCoeff*D + ExcessCoeff*E [+ MutdiffCoeff*MD/M]
+//	backward: cost [+ remainder terms] [+ MutdiffCoeff*MD/M]
+//
+// with D, M, MD the final values of the loop's accumulators, E the final excess count (the loop's counter, the
+// last tail loop's counter, or the counter plus len-cursor terms - how many of those is the exit obligation's
+// business), the mean-difference term present exactly when the way runs under M != 0 (a count: positive) and
+// absent only under a test that refuses M > 0. Nothing else is added, nothing is subtracted or rescaled.
+func (r *Run) c07CheckResult(w *c07Walk, tm *Termer, paths []*IterPath) {
+	p := r.P
+	fn := w.Fn
+	construct := fn.Name() + ".result"
+	pos := p.Pos(fn.Pos())
+	fps, ok := c07ResultPaths(w, tm, paths)
+	if !ok {
+		r.Undecided(construct, pos, "the code behind the walk is not a finite set of acyclic ways to a return")
+		return
+	}
+	eBase, costBase := w.E, w.Cost
+	if w.TailAcc != nil {
+		if w.Kind == "linear" {
+			eBase = w.TailAcc
+		} else {
+			costBase = w.TailAcc
+		}
+	}
+	isConstZero := func(v ssa.Value) bool { z, isK := constInt(v); return isK && z == 0 }
+	isLenTerm := func(v ssa.Value) bool {
+		s := tm.Of(v).String()
+		return s == "len(recv.Genes)" || s == "len(p1.Genes)"
+	}
+	for _, fp := range fps {
+		lastB := fp.Blocks[len(fp.Blocks)-1]
+		ret, isRet := lastB.Instrs[len(lastB.Instrs)-1].(*ssa.Return)
+		if !isRet || len(ret.Results) != 1 {
+			r.Undecided(construct, pos, "a way behind the walk does not end in a return of one value")
+			return
+		}
+		fail := func(msg string) {
+			r.Bad(construct, p.Pos(ret.Pos()), msg, fp.Describe(p)...)
+		}
+		leaves, okL := c07Leaves(fp, ret.Results[0], nil, 0)
+		if !okL {
+			r.Undecided(construct, pos, "cannot decompose the value returned")
+			return
+		}
+		nD, nE, nC, nM := 0, 0, 0, 0
+		var mDen ssa.Value
+		for _, lf := range leaves {
+			v := lf.V
+			if isConstZero(v) {
+				continue
+			}
+			if w.Kind == "fast" {
+				if costBase != nil && v == ssa.Value(costBase) {
+					nC++
+					continue
+				}
+				inLoop := lf.At != nil && w.Main.Blocks[lf.At]
+				if inLoop && (w.IsDc(v) || w.IsEc(v)) {
+					continue // the unit of the last, partial iteration
+				}
+				if len(w.Tails) == 0 && c07RemainderTerm(fp, v, w.Fam1, w.Fam2, w.IsDc) != 0 {
+					continue // counted by the exit obligation
+				}
+			}
+			var num, den []ssa.Value
+			c07Factors(fp, v, false, &num, &den, 0)
+			zero := false
+			for _, f := range num {
+				if isConstZero(f) {
+					zero = true
+				}
+			}
+			has := func(fs []ssa.Value, pred func(ssa.Value) bool) (ssa.Value, bool) {
+				var other ssa.Value
+				found := false
+				for _, f := range fs {
+					if !found && pred(f) {
+						found = true
+						continue
+					}
+					other = f
+				}
+				return other, found
+			}
+			if zero && len(den) == 0 && len(num) == 2 {
+				if _, isM := has(num, w.IsMc); isM {
+					continue // MutdiffCoeff * 0: a mean that stays 0 without matching genes (the guard is judged below)
+				}
+				if _, isE := has(num, w.IsEc); isE && w.Kind == "linear" && eBase == nil {
+					nE++ // no excess gene counted on this way: the count is still its initial 0
+					continue
+				}
+			}
+			switch {
+			case w.Kind == "linear" && len(den) == 0 && len(num) == 2:
+				if x, isD := has(num, w.IsDc); isD {
+					if !c07FinalOf(fp, x, w.D, w.Main) {
+						fail("DisjointCoeff is multiplied by something other than the number of disjoint genes the walk counted")
+						return
+					}
+					nD++
+					continue
+				}
+				if y, isE := has(num, w.IsEc); isE {
+					ys, okY := c07Leaves(fp, c07StripConv(fp, y), nil, 0)
+					nBase := 0
+					for _, yl := range ys {
+						yv := yl.V
+						switch {
+						case eBase != nil && yv == ssa.Value(eBase):
+							nBase++
+						case isConstZero(yv):
+						default:
+							// len-cursor (how many such terms and over which list: the exit obligation)
+							inner := c07StripConv(fp, yv)
+							var parts []ssa.Value
+							if il, okI := c07SumLeaves(fp, inner, 0); okI {
+								parts = il
+							}
+							for _, pt := range parts {
+								sb, isSub := pt.(*ssa.BinOp)
+								if !isSub || sb.Op != token.SUB || !isLenTerm(sb.X) || len(w.Tails) > 0 {
+									okY = false
+								}
+							}
+							if len(parts) == 0 {
+								okY = false
+							}
+						}
+					}
+					if !okY || (eBase != nil && nBase != 1) {
+						fail("ExcessCoeff is multiplied by something other than the number of excess genes the walk counted")
+						return
+					}
+					nE++
+					continue
+				}
+			}
+			if len(num) == 2 && len(den) == 1 {
+				if md, isM := has(num, w.IsMc); isM && c07FinalOf(fp, md, w.MD, w.Main) && c07FinalOf(fp, den[0], w.M, w.Main) {
+					nM++
+					mDen = den[0]
+					continue
+				}
+			}
+			fail("the value returned contains a term that is not part of the formula (" + tm.Of(v).String() + "): the distance is excess_coeff*E + disjoint_coeff*D + mutdiff_coeff*W and nothing else")
+			return
+		}
+		if w.Kind == "linear" && (nD != 1 || nE != 1) {
+			fail(fmt.Sprintf("the value returned contains %d disjoint term(s) and %d excess term(s); expected DisjointCoeff*D + ExcessCoeff*E", nD, nE))
+			return
+		}
+		if w.Kind == "fast" && nC != 1 {
+			fail(fmt.Sprintf("the value returned contains the accumulated excess/disjoint cost %d times", nC))
+			return
+		}
+		switch nM {
+		case 0:
+			// the mean difference may be left out only where no genes matched
+			refused := false
+			for _, g := range fp.Conds {
+				b, isB := g.Cond.(*ssa.BinOp)
+				if !isB {
+					continue
+				}
+				for _, o := range []ssa.Value{b.X, b.Y} {
+					if _, isC := o.(*ssa.Const); isC {
+						continue
+					}
+					if c07FinalOf(fp, o, w.M, w.Main) && c07Sign(fp, c07StripConv(&IterPath{End: "partial"}, o))&c07RelGT == 0 {
+						refused = true
+					}
+				}
+			}
+			if !refused {
+				fail("a way to the result leaves out the mean mutation difference of the matching genes although it is not known that no genes matched")
+				return
+			}
+		case 1:
+			if c07Sign(fp, mDen)&c07RelEQ != 0 {
+				fail("the mean mutation difference is added on a way that is not known to have matching genes (0/0)")
+				return
+			}
+		default:
+			fail("the mean mutation difference is added more than once")
+			return
+		}
+	}
+	r.OK(construct, pos, fmt.Sprintf("on %d way(s) from the end of the walk to the result the value returned is the formula over the final counters, with the mean difference exactly when genes matched", len(fps)))
+}
+
+// c07CheckStart: the walk starts with all counters (and the excess/disjoint state) at 0 and both cursors on the
+// first gene in walking direction (0 forward, len-1 backward).
+func (r *Run) c07CheckStart(w *c07Walk, tm *Termer, paths []*IterPath) {
+	p := r.P
+	construct := w.Fn.Name() + ".start"
+	pos := p.Pos(w.Fn.Pos())
+	dir := map[*ssa.Phi]int{}
+	for _, ip := range paths {
+		if ip.End != "back" {
+			continue
+		}
+		for _, c := range []*ssa.Phi{w.C1, w.C2} {
+			if n, ok := c07SignedStep(ip, c); ok && n != 0 && dir[c] == 0 {
+				dir[c] = n
+			}
+		}
+	}
+	lenOf := map[*ssa.Phi]string{w.C1: "len(recv.Genes)", w.C2: "len(p1.Genes)"}
+	msg := ""
+	for i, pred := range w.Main.Header.Preds {
+		if w.Main.Blocks[pred] {
+			continue
+		}
+		for _, a := range []*ssa.Phi{w.D, w.E, w.M, w.MD, w.Cost, w.State} {
+			if a == nil {
+				continue
+			}
+			if z, isK := constInt(a.Edges[i]); !isK || z != 0 {
+				msg = "a counter of the walk (" + a.Comment + ") does not start at 0"
+			}
+		}
+		for _, c := range []*ssa.Phi{w.C1, w.C2} {
+			e := a07Strip(c.Edges[i])
+			switch {
+			case dir[c] > 0:
+				if z, isK := constInt(e); !isK || z != 0 {
+					msg = "a cursor of the forward walk (" + c.Comment + ") does not start at the first gene (0)"
+				}
+			case dir[c] < 0:
+				sb, isSub := e.(*ssa.BinOp)
+				one := int64(0)
+				if isSub {
+					one, _ = constInt(sb.Y)
+				}
+				if !isSub || sb.Op != token.SUB || one != 1 || tm.Of(sb.X).String() != lenOf[c] {
+					msg = "a cursor of the backward walk (" + c.Comment + ") does not start at the last gene (len-1)"
+				}
+			default:
+				msg = "cannot determine the direction of a cursor"
+			}
+		}
+	}
+	r.Check(msg == "", construct, pos, "all counters start at 0, both cursors at the first gene in walking direction", msg)
+}
+
+func a07Strip(v ssa.Value) ssa.Value {
+	for {
+		if ph, ok := v.(*ssa.Phi); ok && len(ph.Edges) == 1 {
+			v = ph.Edges[0]
+			continue
+		}
+		return v
+	}
+}
+
+// c07CheckEarlyReturns: a return that is not behind the walk is right only for an empty gene list: with list k
+// empty the distance is ExcessCoeff * len(other list) (no disjoint, no matching genes), with both empty it is 0.
+// Accepted values: 0 or ExcessCoeff*float64(sum of list lengths), where every list whose length is NOT in the sum
+// is known to be empty on that way, and at least one list is known to be empty.
+func (r *Run) c07CheckEarlyReturns(w *c07Walk, tm *Termer) {
+	p := r.P
+	fn := w.Fn
+	H := w.Main.Header
+	lenTerm := map[int]string{1: "len(recv.Genes)", 2: "len(p1.Genes)"}
+	nEarly := 0
+	for _, b := range fn.Blocks {
+		ret, isRet := b.Instrs[len(b.Instrs)-1].(*ssa.Return)
+		if !isRet || H.Dominates(b) || b == fn.Blocks[0] {
+			continue
+		}
+		nEarly++
+		construct := fmt.Sprintf("%s.early-return[%d]", fn.Name(), nEarly)
+		pos := p.Pos(ret.Pos())
+		conts, complete := EnumRegionPaths(fn, fn.Blocks[0], func(x *ssa.BasicBlock) bool { return x == b || x == H }, 400)
+		if !complete {
+			r.Undecided(construct, pos, "too many ways to this return")
+			continue
+		}
+		msg := ""
+		n := 0
+		for _, c := range conts {
+			if c.End == "cycle" {
+				msg = "a loop in front of the walk"
+				continue
+			}
+			if c.End != "stop" || c.Blocks[len(c.Blocks)-1] != b || relInfeasible(tm, c.Conds) {
+				continue
+			}
+			n++
+			fp := &IterPath{Blocks: c.Blocks, End: "partial", Conds: c.Conds}
+			empty := map[int]bool{}
+			for _, g := range fp.Conds {
+				cmp, isB := g.Cond.(*ssa.BinOp)
+				if !isB {
+					continue
+				}
+				set, okS := c07RelSet(cmp.Op, g.True)
+				if !okS {
+					continue
+				}
+				for k := 1; k <= 2; k++ {
+					var kc int64
+					var isK bool
+					s := set
+					switch {
+					case tm.Of(cmp.X).String() == lenTerm[k]:
+						kc, isK = constInt(cmp.Y)
+					case tm.Of(cmp.Y).String() == lenTerm[k]:
+						kc, isK = constInt(cmp.X)
+						s = c07Mirror(set)
+					}
+					if !isK {
+						continue
+					}
+					// len <= 0 or len < 1: a length is never negative
+					if (kc == 0 && s&c07RelGT == 0) || (kc == 1 && s == c07RelLT) {
+						empty[k] = true
+					}
+				}
+			}
+			inSum := map[int]bool{}
+			v := fp.ResolveAt(ret.Results[0])
+			if z, isK := constInt(v); !(isK && z == 0) {
+				var num, den []ssa.Value
+				c07Factors(fp, v, false, &num, &den, 0)
+				okV := len(den) == 0 && len(num) == 2
+				var sum ssa.Value
+				if okV {
+					switch {
+					case w.IsEc(num[0]):
+						sum = num[1]
+					case w.IsEc(num[1]):
+						sum = num[0]
+					default:
+						okV = false
+					}
+				}
+				if okV {
+					parts, okP := c07SumLeaves(fp, sum, 0)
+					okV = okP
+					for _, pt := range parts {
+						pt = c07StripConv(fp, pt)
+						s := tm.Of(pt).String()
+						switch s {
+						case lenTerm[1]:
+							okV = okV && !inSum[1]
+							inSum[1] = true
+						case lenTerm[2]:
+							okV = okV && !inSum[2]
+							inSum[2] = true
+						default:
+							okV = false
+						}
+					}
+				}
+				if !okV {
+					msg = "returns " + tm.Of(v).String() + " without walking the genes: neither 0 nor ExcessCoeff times the number of genes of the non-empty list(s)"
+					continue
+				}
+			}
+			if !empty[1] && !empty[2] {
+				msg = "returns without walking the genes on a way where neither gene list is known to be empty"
+				continue
+			}
+			for k := 1; k <= 2; k++ {
+				if !inSum[k] && !empty[k] {
+					msg = fmt.Sprintf("returns without walking the genes and without counting the genes of list %d as excess, although that list is not known to be empty", k)
+				}
+			}
+		}
+		if n == 0 && msg == "" {
+			continue // not reachable without passing the walk
+		}
+		r.Check(msg == "", construct, pos, "a return in front of the walk happens only for an empty gene list and yields ExcessCoeff times the genes of the other list", "compat walk bypassed: "+msg)
+	}
 }
